@@ -267,6 +267,11 @@ func runFmt(w io.Writer) {
 		}
 		enc.Encode(o)
 	}
+	// a format without holes: %% is a literal percent sign whatever the number of arguments
+	for _, c := range []struct{ f, want string }{{"100%% sure", "100% sure"}, {"plain", "plain"}, {"%%", "%"}, {"a%%b%%c", "a%b%c"}, {"", ""}} {
+		f := c.f
+		emit("SInterP0", fmtVal{"other", f, ""}, func() string { return frt.SInterP(f) }, c.want)
+	}
 	for _, fv := range fmtValues() {
 		v := fv.v
 		ref := ""
